@@ -5,14 +5,14 @@ LEVEL = "model_checking"
 HARNESS = ["c12_convert.cpp"]
 MODULE = "c12"
 VALIDATE_OUT_SHA = False  # BoundingSphere / CalcTangentSpace are stubbed in the engine run
-SKINF, COLORS, DUPNAME, SYMGEOM, FOURBONES, TWOPARTS, WHITEALPHA = 1, 2, 4, 8, 16, 32, 64
+SKINF, COLORS, DUPNAME, SYMGEOM, FOURBONES, TWOPARTS, WHITEALPHA, SEGMENTED, TRIPLENAME = 1, 2, 4, 8, 16, 32, 64, 128, 256
 BOUNDS = {
     "quick": {"models": "4-vertex / 2-triangle LE (NiTriShape) and SE (BSTriShape) models built through the API and reloaded: unskinned, skinned with 2 or 4 bones per vertex, one or two partitions, vertex colours (coloured, and white with varying alpha), two sibling shapes with equal names", "symbolic": "vertex positions and UVs as symbolic IEEE bit patterns (one model per direction); option booleans removeParallax/calcBounds/fixBSXFlags/fixShaderFlags enumerated (4 combinations)", "checks": "bit-identical positions, triangle multiset, UV bits, colours within 1/255, bone list, per-vertex weights, shader, distinct sibling names, save+reload in the target version, partition coverage, there-and-back"},
     "thorough": {"models": "as quick, all feature combinations", "symbolic": "as quick, all 16 option combinations", "checks": "as quick"},
 }
 ASSUMPTIONS = [
     "BoundingSphere(vector) is an arbitrary sphere and CalcTangentSpace a no-op (their float results are outside this property)",
-    "strips (NiTriStrips + triangulation), BSSegmentedTriShape, dynamic/head-part shapes and model-space-normal shaders are not built by the harness (outside the claim)",
+    "strips (NiTriStrips + triangulation), skinned BSSegmentedTriShape, dynamic/head-part shapes and model-space-normal shaders are not built by the harness (outside the claim)",
     "weights are dyadic rationals, compared with a 2e-3 tolerance (SE stores half floats)",
 ]
 LEVEL_TEXT = ("Bounded symbolic model checking of NifFile::OptimizeFor (LE->SE and SE->LE), RenameDuplicateShapes and the partition/weight "
@@ -25,7 +25,7 @@ def jobs(tier, seed):
     q = tier == "quick"
     st = ["bsphere", "tangents"]
     J = []
-    feats = [0, SKINF, SKINF | COLORS, COLORS | WHITEALPHA, DUPNAME, SKINF | FOURBONES, SKINF | TWOPARTS, SKINF | COLORS | DUPNAME | TWOPARTS]
+    feats = [0, SKINF, SKINF | COLORS, COLORS | WHITEALPHA, DUPNAME, TRIPLENAME, SEGMENTED, SKINF | FOURBONES, SKINF | TWOPARTS, SKINF | COLORS | DUPNAME | TWOPARTS]
     opts = (15, 14, 0, 5) if q else range(16)
     for d in (0, 1):
         for f in feats:
